@@ -580,10 +580,14 @@ def main():
         # package's directory is saved, nothing follows that could make up for a lost event
         ends, seen_f = [], set()
         for h in envs:
-            if len(h) >= 2 and h[-1]["kind"] == "repair" and h[-1]["settled"] and h[-2]["kind"].startswith("nested_") and (h[-2]["kind"], len(h)) not in seen_f:
-                seen_f.add((h[-2]["kind"], len(h)))
+            fs = tuple(sorted(h[-1].get("faults") or []))
+            if (len(h) >= 2 and h[-1]["kind"] == "repair" and h[-1]["settled"] and fs and set(fs) <= {"nested_fetch_error", "nested_manifest_error"}
+                    and (fs, h[0]["kind"] == "drop_json") not in seen_f):
+                seen_f.add((fs, h[0]["kind"] == "drop_json"))
                 ends.append(h)
         envs = first[:12] + [h for h in drops + ends[:6] if h not in first[:12]]
+
+    c.cov["env_schedules_replayed"] = [">".join(("" if t["settled"] else "~") + t["kind"] for t in h) for h in envs]
 
     def envwork(arg):
         i, h = arg
